@@ -46,6 +46,27 @@ type c09Case struct {
 	AST   *gen.Block       `json:"ast,omitempty"`
 	Vars  map[string]int64 `json:"vars,omitempty"`
 	Order []string         `json:"order,omitempty"`
+	// engine level: the goroutine making the DelayNth hit of DelaySite pauses 300 us
+	DelaySite string `json:"delay_site,omitempty"`
+	DelayNth  int    `json:"delay_nth,omitempty"`
+}
+
+// c09Forks: activities whose flow action takes several sequence flows, the first of them not taken
+func c09Forks() []c01Prog {
+	f, tr := &gen.Cond{Kind: "const", Lit: false}, &gen.Cond{Kind: "const", Lit: true}
+	mk := func(name string, conds ...*gen.Cond) c01Prog {
+		b := &gen.Block{Kind: "condtask", Default: -1, Conds: conds}
+		for range conds {
+			b.Kids = append(b.Kids, gen.T())
+		}
+		return c01Prog{Name: "fork:" + name, AST: gen.Seq(gen.T(), b), NV: 1, Family: "fork:" + name}
+	}
+	return []c01Prog{
+		mk("first-false", f, nil, tr, tr),
+		mk("first-taken", nil, tr, f, tr),
+		mk("two-false", f, f, nil, tr),
+		{Name: "fork:and4", AST: gen.Seq(gen.T(), &gen.Block{Kind: "and", Default: -1, Kids: []*gen.Block{gen.T(), gen.T(), gen.T(), gen.T()}}, gen.T()), NV: 1, Family: "fork:and4"},
+	}
 }
 
 type c09Trace struct {
@@ -103,6 +124,28 @@ func c09Cases(tier string, seed uint64) []fw.Case {
 			c := c09Case{Level: "engine", AST: p.AST, Vars: vars, Order: o, Hooks: []float64{0, 0.3}[oi%2]}
 			c.Name = fmt.Sprintf("engine/%s/o%d", p.Name, oi)
 			cs = append(cs, fw.MkCase("engine", &c))
+		}
+	}
+	// engine level with a deterministic schedule perturbation around the points where flows are created
+	nths := []int{1, 2, 3}
+	if tier == "thorough" {
+		nths = []int{1, 2, 3, 4, 5, 6, 8}
+	}
+	dprogs := append(c09Forks(), forcedPairs(fw.NewRng(seed, "C09d"))...)
+	for _, p := range dprogs {
+		g := gen.Lower("p", p.AST)
+		vars := zeroData(assignments(p.NV, 1, rng)[0], p.AST)
+		base := step.Case{G: g, Vars: vars, Lenient: hasOr(g)}
+		orders, _ := step.Orders(&base, 1, rng)
+		if len(orders) == 0 {
+			continue
+		}
+		for _, site := range []string{"flow.fork", "flow.action", "flow.loop", "tracer.send", "tracer.bcast"} {
+			for _, nth := range nths {
+				c := c09Case{Level: "engine", AST: p.AST, Vars: vars, Order: orders[0], DelaySite: site, DelayNth: nth}
+				c.Name = fmt.Sprintf("engine-delay/%s/%s#%d", p.Name, site, nth)
+				cs = append(cs, fw.MkCase("engine-delay", &c))
+			}
 		}
 	}
 	return fw.Number(cs)
@@ -402,7 +445,7 @@ func c09Tracer(c *c09Case, env *fw.Env, v *fw.V) {
 
 func c09Engine(c *c09Case, env *fw.Env, v *fw.V) {
 	g := gen.Lower("p", c.AST)
-	sc := step.Case{G: g, Vars: c.Vars, Order: c.Order, Lenient: hasOr(g), Hooks: c.Hooks}
+	sc := step.Case{G: g, Vars: c.Vars, Order: c.Order, Lenient: hasOr(g), Hooks: c.Hooks, DelaySite: c.DelaySite, DelayNth: c.DelayNth, DelayUs: 300}
 	tmp := fw.NewV(fw.Case{})
 	r := step.RunStepwise("C09", &sc, env, tmp)
 	// only the trace-stream rules count here; behavioural divergences are C01's business
@@ -440,7 +483,7 @@ func init() {
 			}
 			return v
 		},
-		Rule:        "tracer level: PRNG histories with 1..8 senders x 200 uniquely numbered traces, a permanent reference subscriber, 0..2 permanent slow subscribers (buffer 0/1, paced readers; must see exactly the reference sequence), optional cancellation of the tracer's context at a PRNG point while the registered senders go on (everything they send must still be delivered, then the tracer terminates and closes every channel), plus 0..3 joiners that subscribe at a PRNG point, read a PRNG number of traces (pacing none/yield/50us, buffer 0/1/10/1000) and unsubscribe; GOMAXPROCS 1/2/4/8; hooks in Send/broadcast/Subscribe/Unsubscribe; offline checks: reference sequence is a permutation respecting each sender's order, each joiner's reads and its buffer leftovers are contiguous blocks of the reference order in the right order, nothing sent after Subscribe returned is missed, nothing arrives after Unsubscribe returned, no deadlock at the quiescent point; engine level: generated programs run stepwise with two subscribers, causal grammar (flow trace before NewFlow of the flows it announces, visit before leave, termination last) and identical order for both subscribers; non-trivial = > 1 sender or >= 1 joiner (tracer) / any engine run; distinct = descriptor hash",
+		Rule:        "tracer level: PRNG histories with 1..8 senders x 200 uniquely numbered traces, a permanent reference subscriber, 0..2 permanent slow subscribers (buffer 0/1, paced readers; must see exactly the reference sequence), optional cancellation of the tracer's context at a PRNG point while the registered senders go on (everything they send must still be delivered, then the tracer terminates and closes every channel), plus 0..3 joiners that subscribe at a PRNG point, read a PRNG number of traces (pacing none/yield/50us, buffer 0/1/10/1000) and unsubscribe; GOMAXPROCS 1/2/4/8; hooks in Send/broadcast/Subscribe/Unsubscribe; offline checks: reference sequence is a permutation respecting each sender's order, each joiner's reads and its buffer leftovers are contiguous blocks of the reference order in the right order, nothing sent after Subscribe returned is missed, nothing arrives after Unsubscribe returned, no deadlock at the quiescent point; engine level: generated programs run stepwise with two subscribers (also with the goroutine making the n-th hit of flow.fork / flow.action / flow.loop / tracer.send / tracer.bcast paused 300 us, on the nesting pairs and on activities whose flow action takes several sequence flows with the first one not taken), causal grammar (flow trace before NewFlow of the flows it announces, visit before leave, termination last) and identical order for both subscribers; non-trivial = > 1 sender or >= 1 joiner (tracer) / any engine run; distinct = descriptor hash",
 		Assumptions: []string{"subscribers honour the documented contract: they keep reading until they unsubscribe", "unsubscribing a channel twice is not exercised"},
 	})
 }
